@@ -1,7 +1,7 @@
 """C13 - tracing and analysis are repeatable and free of side effects.
 
-History LTS: initial states = 4 lenses (plain; vignetting factors; Fresnel coatings + polarization state; asphere +
-radial aperture); alphabet Q = every tracing / paraxial / aberration / wavefront / PSF / MTF / analysis query. Every
+History LTS: initial states = 5 lenses (plain; vignetting factors; Fresnel coatings + polarization state; unsorted fields;
+asphere + radial aperture); alphabet Q = every tracing / paraxial / aberration / wavefront / PSF / MTF / analysis query. Every
 history of length 2 (thorough: length 3 over a sub-alphabet) is executed on a fresh lens; oracle: the result of the last
 call is bit-identical to the same call on a fresh lens, the canonical lens state is unchanged, caller-owned arrays and
 distribution objects are unchanged, and a ray's result does not depend on its batch.
@@ -22,8 +22,9 @@ META = dict(
     rule='unit = (lens, first operation); evaluation = one history (a, b[, c]) whose last result is compared bit-for-bit with the '
          'same call on a fresh lens; distinct = (lens, history) with a non-empty finite result',
     exhaustive=True,
-    bounds=dict(quick='4 lenses x all ordered pairs of 31 query operations (3844 histories) + repeats; 15 sub-batches of a 4-ray batch '
-                      'on every lens for trace_generic and Optic.trace',
+    bounds=dict(quick='5 lenses (one with fields entered in non-ascending order) x all ordered pairs of 36 query operations + repeats; '
+                      '15 sub-batches of a 4-ray batch on every lens for trace_generic and Optic.trace; 15 analysis classes x every '
+                      'history (a, q1..qn) of their read-only queries (data, centroid, rms, strehl, coeffs, view...) on ONE analysis object',
                 thorough='adds all length-3 histories over a 10-operation sub-alphabet (4000) and 4 numeric variants'),
     tolerances=dict(repeat='bit-identical (NaN positions equal)', batch='0 for closed-form surfaces, surface tol for iterative ones'),
     assumptions=['unseeded RandomDistribution is excluded (the property excepts it)'],
@@ -47,6 +48,9 @@ def lenses(v):
                                waves=w3, pol=[1.0, 0.6, 0.0, 0.4])
     asp = [S('asph', R=R, k=-0.3, coeffs=[1e-5, -2e-8], mat=g1, t=t[1], stop=True, aperture=[0.48 * p['epd']]),
            S('sphere', R=-2 * R, mat='air', t=2.0 * R, aperture=[0.5 * p['epd'], 0.08 * p['epd']])]
+    # fields entered in non-ascending order (0, max, 0.7 max), vignetting on the largest one
+    out['unsorted-fields'] = LZ.spec(trip, obj=LZ.INF, ap=('EPD', p['epd']), ftype='angle',
+                                     fields=([0.0, 0.0, 0.0], [p['ang'], 0.0, 0.2], [0.7 * p['ang'], 0.0, 0.05]), waves=w3)
     out['asphere-aperture'] = LZ.spec(asp, obj=LZ.INF, ap=('EPD', p['epd']), ftype='angle', fields=(0.0, 0.7 * p['ang'], p['ang']), waves=w3)
     return out
 
@@ -167,6 +171,91 @@ def ops():
     return Q
 
 
+def analysis_objects():
+    """name -> (constructor(optic), {query name: function(analysis object)}); every query is read-only."""
+    from optiland import analysis as AN
+    from optiland.wavefront import OPD, ZernikeOPD, OPDFan
+    from optiland.psf import FFTPSF
+    from optiland.mtf import FFTMTF, GeometricMTF
+    import matplotlib.pyplot as plt
+    W = 0.5876
+
+    def view(obj, *a, **k):
+        try:
+            obj.view(*a, **k)
+        finally:
+            plt.close('all')
+        return None
+    spot = {'data': lambda s: s.data, 'centroid': lambda s: s.centroid(), 'rms_spot_radius': lambda s: s.rms_spot_radius(),
+            'geometric_spot_radius': lambda s: s.geometric_spot_radius(), 'view': view}
+    A = {}
+    A['SpotDiagram'] = (lambda o: AN.SpotDiagram(o, 'all', 'all', 3, 'hexapolar'), spot)
+    A['EncircledEnergy'] = (lambda o: AN.EncircledEnergy(o, 'all', W, 3, 'hexapolar', 16), spot)
+    A['GeometricMTF'] = (lambda o: GeometricMTF(o, 'all', W, 6, 'uniform', 16),
+                         dict(spot, mtf=lambda m: [m.mtf, m.freq], view=lambda m: view(m, add_reference=True)))
+    A['RmsSpotSizeVsField'] = (lambda o: AN.RmsSpotSizeVsField(o, 4, 'all', 3),
+                               {'data': lambda s: s.data, 'curve': lambda s: [s._field, s._spot_size], 'centroid': lambda s: s.centroid(),
+                                'rms_spot_radius': lambda s: s.rms_spot_radius(), 'view': view})
+    A['OPD'] = (lambda o: OPD(o, (0.0, 1.0), W, 3), {'data': lambda w: [list(fd) for row in w.data for fd in row], 'rms': lambda w: w.rms(),
+                                                     'view': lambda w: view(w, num_points=16), 'view3d': lambda w: view(w, '3d', 16)})
+    A['OPDFan'] = (lambda o: OPDFan(o, 'all', [W], 5), {'data': lambda w: [list(fd) for row in w.data for fd in row], 'view': view})
+    A['ZernikeOPD'] = (lambda o: ZernikeOPD(o, (0.0, 1.0), W, 3, 'fringe', 11),
+                       {'data': lambda w: [list(fd) for row in w.data for fd in row], 'coeffs': lambda w: w.coeffs, 'rms': lambda w: w.rms(),
+                        'zernike-poly': lambda w: w.zernike.poly(np.array([0.0, 0.5, 1.0]), np.array([0.0, 1.0, 2.0])),
+                        'view': lambda w: view(w, num_points=16), 'view_residual': lambda w: (w.view_residual(), plt.close('all'))[1]})
+    A['FFTPSF'] = (lambda o: FFTPSF(o, (0.0, 0.7), W, 16, 64), {'data': lambda p_: [list(fd) for row in p_.data for fd in row],
+                                                                  'psf': lambda p_: p_.psf, 'pupils': lambda p_: p_.pupils,
+                                                                  'strehl': lambda p_: p_.strehl_ratio(),
+                                                                  'view': lambda p_: view(p_, num_points=16), 'view-log3d': lambda p_: view(p_, '3d', True, num_points=16)})
+    A['FFTMTF'] = (lambda o: FFTMTF(o, 'all', W, 16, 64), {'mtf': lambda m: [m.mtf, m.max_freq], 'psf': lambda m: m.psf,
+                                                            'view': lambda m: view(m, add_reference=True)})
+    A['RayFan'] = (lambda o: AN.RayFan(o, 'all', 'all', 5), {'data': lambda r: r.data, 'view': view})
+    A['Distortion'] = (lambda o: AN.Distortion(o, 'all', 6, 'f-tan'), {'data': lambda r: r.data, 'view': view})
+    A['GridDistortion'] = (lambda o: AN.GridDistortion(o, 'primary', 4), {'data': lambda r: r.data, 'view': view})
+    A['FieldCurvature'] = (lambda o: AN.FieldCurvature(o, 'all', 6), {'data': lambda r: r.data, 'view': view})
+    A['PupilAberration'] = (lambda o: AN.PupilAberration(o, 'all', [W], 5), {'data': lambda r: r.data, 'view': view})
+    A['RmsWavefrontErrorVsField'] = (lambda o: AN.RmsWavefrontErrorVsField(o, 3, 'all', 3),
+                                     {'curve': lambda s: [s._field, s._wavefront_error], 'view': view})
+    return A
+
+
+def run_requery(part, unit):
+    """Queries on ONE analysis object: each answer equals the answer of a fresh object, whatever was asked before."""
+    ctor, qs = analysis_objects()[unit['object']]
+    sp = lenses(unit['variant'])[unit['lens']]
+    site = unit['object']
+    fresh = {}
+    for q in qs:
+        o = LZ.build(sp)
+        obj = ctor(o)
+        fresh[q] = blob(qs[q](obj))
+        part.transitions += 1
+    for a in qs:
+        o = LZ.build(sp)
+        before = canon.optic(o)
+        obj = ctor(o)
+        part.states += 1
+        hist = [a]
+        blob(qs[a](obj))
+        for b in qs:
+            hist.append(b)
+            got = blob(qs[b](obj))
+            part.transitions += 1
+            part.evals += 1
+            if not blob_equal(got, fresh[b]):
+                part.violation(PID, 'analysis-object-answers-do-not-depend-on-earlier-queries', f'{site}.{b}', f'lens={unit["lens"]},after={a}',
+                               dict(lens=unit['lens'], object=site, history=list(hist), variant=unit['variant']),
+                               observed='answer differs from the same query on a fresh analysis object', expected='bit-identical')
+                break
+            if blob_size(got) > 0:
+                part.outcome(unit['lens'], site, a, b)
+        after = canon.optic(o)
+        if after != before:
+            part.violation(PID, 'lens-not-changed-by-queries', site, f'lens={unit["lens"]}', dict(lens=unit['lens'], object=site, history=hist),
+                           observed=canon.diff(before, after), expected='prescription, fields, wavelengths, aperture unchanged')
+    part.sample(dict(lens=unit['lens'], object=site, queries=list(qs)))
+
+
 SUB = ['trace-hexapolar', 'trace-distribution-object', 'trace_generic-arrays', 'paraxial-chief', 'third_order', 'wavefront', 'fft-psf',
        'spot-diagram', 'pupil-aberration', 'update_paraxial']
 
@@ -178,6 +267,8 @@ def units(tier, variant):
         for a in names:
             out.append(dict(kind='pairs', lens=ln, first=a, variant=variant))
         out.append(dict(kind='batch', lens=ln, variant=variant))
+        for name in analysis_objects():
+            out.append(dict(kind='requery', lens=ln, object=name, variant=variant))
         if tier == 'thorough':
             for a in SUB:
                 for b in SUB:
@@ -302,5 +393,5 @@ def run_batch(part, unit):
 
 def run_unit(unit):
     part = Part(unit)
-    dict(pairs=run_pairs, triples=run_triples, batch=run_batch)[unit['kind']](part, unit)
+    dict(pairs=run_pairs, triples=run_triples, batch=run_batch, requery=run_requery)[unit['kind']](part, unit)
     return part
